@@ -2,6 +2,7 @@ import PC.Drv.LogBuf
 import PC.Drv.Pure
 import PC.Drv.RevDeps
 import PC.Drv.Sup
+import PC.Drv.Output
 /-! `pcdriver <component>`: reads protocol lines on stdin, prints `model ||| verdict` per line. -/
 open PC.Drv
 
@@ -15,4 +16,5 @@ def main (args : List String) : IO UInt32 := do
   | ["atoi"] => loop PC.Drv.Pure.atoiStep stdin stdout (); return 0
   | ["revdeps"] => loop PC.Drv.RevDeps.step stdin stdout (); return 0
   | ["sup"] => loop PC.Drv.Sup.step stdin stdout {}; return 0
+  | ["output"] => loop PC.Drv.Output.step stdin stdout (); return 0
   | _ => IO.eprintln "usage: pcdriver <component>"; return 2
